@@ -220,4 +220,13 @@ Layout(t, n) ==
                                a == Layout(t.c[4], n + 1) IN
                            <<[t EXCEPT !.ln = n, !.c = <<i, t.c[2], t.c[3], a[1]>>], a[2]>>
 LayoutProg(ss, first) == Prog(LayoutSeq(ss, first, <<>>)[1])
+
+(* "a fresh value per site": the placeholder Fresh is replaced by the source line of the statement it occurs in *)
+Fresh == [k |-> "lit", v |-> [t |-> "str", s |-> <<63, 63>>], c |-> <<>>]
+RECURSIVE TagFresh(_, _)
+TagFresh(t, l) == IF t.k = "none" THEN t
+                  ELSE IF t = Fresh THEN [k |-> "lit", v |-> [t |-> "num", n |-> FromInt(l)], c |-> <<>>]
+                  ELSE IF t.c = <<>> THEN t
+                  ELSE LET l2 == IF IsStmt(t) /\ t.ln > 0 THEN t.ln ELSE l IN [t EXCEPT !.c = [i \in 1..Len(t.c) |-> TagFresh(t.c[i], l2)]]
+FreshProg(ss, first) == TagFresh(LayoutProg(ss, first), 0)
 =============================================================================
